@@ -314,19 +314,53 @@ theorem free_job_invoked_eq_called : (frun cfg {} fevs).g.invoked = (frun cfg {}
   (finv_run cfg fevs {} finv_init).inv
 
 /-- `Submit(MakeInline(StopTag{}), f)`: f is destroyed without being invoked, inside the Submit -/
-theorem free_job_stopped_inline_drops (s : FState) (id : Nat) :
-    (fmech cfg s (.submit .stp id)).called = s.called ∧
-    (fmech cfg s (.submit .stp id)).g.invoked = s.g.invoked ∧
-    (fmech cfg s (.submit .stp id)).dropped = s.dropped ++ [id] ∧
-    (fmech cfg s (.submit .stp id)).queue = s.queue := by
-  simp [fmech, submit]
+theorem free_job_stopped_inline_drops (s : FState) (id : Nat) (o : Outcome) :
+    (fmech cfg s (.submit .stp id o)).called = s.called ∧
+    (fmech cfg s (.submit .stp id o)).g.invoked = s.g.invoked ∧
+    (fmech cfg s (.submit .stp id o)).dropped = s.dropped ++ [id] ∧
+    (fmech cfg s (.submit .stp id o)).queue = s.queue := by
+  simp [fmech, submitId, submit]
 
 /-- `Submit(MakeInline(), f)`: f is invoked inside the Submit, in the caller's context -/
-theorem free_job_inline_calls (s : FState) (id : Nat) :
-    (fmech cfg s (.submit .inl id)).called = s.called ++ [id] ∧
-    (fmech cfg s (.submit .inl id)).g.invoked = s.g.invoked ++ [id] ∧
-    (fmech cfg s (.submit .inl id)).dropped = s.dropped := by
-  simp [fmech, submit, G.invoke]
+theorem free_job_inline_calls (s : FState) (id : Nat) (o : Outcome) :
+    (fmech cfg s (.submit .inl id o)).called = s.called ++ [id] ∧
+    (fmech cfg s (.submit .inl id o)).g.invoked = s.g.invoked ++ [id] ∧
+    (fmech cfg s (.submit .inl id o)).dropped = s.dropped := by
+  simp [fmech, submitId, submit, G.invoke]
+
+/-- **a free job owns a COPY of its functor, taken at the Submit**: `Submit(e, f_n)` with a named (lvalue) functor is the
+    Submit of a functor owning the state f_n has AT THAT MOMENT, and leaves the caller's f_n as it is (seeded r2b-2:
+    `std::move(f)` guts it).  The job's state sits in the queue entry … -/
+theorem free_job_lvalue_submit_copies (s : FState) (e : Exec) (n tag : Nat) (o : Outcome) (h : s.fns.lookup n = some tag) :
+    fmech cfg s (.submitL e n) = fmech cfg s (.submit e tag o) ∧ (fmech cfg s (.submitL e n)).fns = s.fns := by
+  constructor
+  · simp [fmech, h]
+  · simp only [fmech, h, submitId]
+    cases submit cfg e none s.g <;> rfl
+
+/-- … and nothing the client does to its own functor afterwards — changing its state, destroying it, creating another one
+    under the same name — reaches a job that was submitted before: queue, log and ghost lists are untouched (seeded r2b-4:
+    the job holds a REFERENCE to the caller's object and runs whatever it is by then) -/
+theorem free_job_independent_of_caller_functor (s : FState) (n tag : Nat) (o : Outcome) :
+    (∀ ev, ev = FEvent.change n tag ∨ ev = FEvent.kill n ∨ ev = FEvent.mk n tag o →
+      (fmech cfg s ev).queue = s.queue ∧ (fmech cfg s ev).g = s.g ∧ (fmech cfg s ev).called = s.called ∧
+      (fmech cfg s ev).dropped = s.dropped ∧ (fmech cfg s ev).submitted = s.submitted ∧
+      (fmech cfg s ev).news = s.news ∧ (fmech cfg s ev).deletes = s.deletes) := by
+  intro ev hev
+  rcases hev with h | h | h <;> subst h <;> simp [fmech]
+
+/-- a queued job runs with exactly the state it was queued with: the `call` logs the `id` stored in the queue entry -/
+theorem free_job_runs_with_submitted_state (s : FState) (k : Nat) (j : QJob)
+    (h : s.queue.find? (fun x => x.k == k) = some j) :
+    (fmech cfg s (.call k)).called = s.called ++ [j.id] ∧ (fmech cfg s (.call k)).g.invoked = s.g.invoked ++ [j.id] := by
+  simp [fmech, h, G.invoke, G.finishJob]
+
+/-- **exceptions of the body are swallowed** (SafeCall::Call: `try { f() } catch (...) {}`): however the body ends —
+    returning, throwing a std::exception, an int, a user struct — the transition is the same: the job counts as Called, the
+    UniqueJob is deleted, the executor and every other job are undisturbed (seeded r2b-3: `catch (const std::exception&)`
+    lets `throw 42` escape the noexcept Call ⇒ std::terminate) -/
+theorem free_job_body_outcome_irrelevant (s : FState) (e : Exec) (id : Nat) (o : Outcome) :
+    fmech cfg s (.submit e id o) = fmech cfg s (.submit e id .ret) := rfl
 
 /-- exactly one allocation per Submit (the UniqueJob holding the functor), deleted exactly once when the job is finished -/
 theorem free_job_deleted_once :
@@ -343,10 +377,20 @@ theorem free_job_deleted_once :
     | cons ev evs ih =>
       intro s hs
       apply ih
-      cases ev with
-      | submit e id =>
-        simp only [fmech]
+      have hsub : ∀ e id, (submitId cfg s e id).news = (submitId cfg s e id).submitted.length := by
+        intro e id
+        simp only [submitId]
         cases submit cfg e none s.g <;> simp [hs]
+      cases ev with
+      | submit e id o => exact hsub e id
+      | mk n tag o => simpa [fmech] using hs
+      | submitL e n =>
+        simp only [fmech]
+        cases s.fns.lookup n with
+        | none => exact hs
+        | some tag => exact hsub e tag
+      | change n tag => simpa [fmech] using hs
+      | kill n => simpa [fmech] using hs
       | call k =>
         simp only [fmech]
         cases s.queue.find? (fun j => j.k == k) <;> simp [hs]
@@ -358,10 +402,17 @@ theorem free_job_can_finish (s : FState) (j : QJob) (rest : List QJob) (hq : s.q
   call_front_shrinks cfg s j rest hq
 
 /-- non-vacuity: e1 queue, e2 queue accepting one Submit; inline, stopped inline, e1, e2 (accepted), e2 (refused) -/
-example : let s := frun cfgEx {} [.submit .inl 1, .submit .stp 2, .submit (.user 1) 3, .submit (.user 2) 4,
-                                  .submit (.user 2) 5, .call 2, .call 1]
+example : let s := frun cfgEx {} [.submit .inl 1 .ret, .submit .stp 2 .ret, .submit (.user 1) 3 .throwInt,
+                                  .submit (.user 2) 4 .throwStd, .submit (.user 2) 5 .ret, .call 2, .call 1]
     s.called = [1, 4, 3] ∧ s.dropped = [2, 5] ∧ s.queue = [] ∧ s.g.subs = [1, 2, 2] ∧
     s.g.jobs = [(2, false), (1, true), (0, true)] ∧ s.news = 5 ∧ s.deletes = 5 := by
+  decide +kernel
+
+/-- non-vacuity of the functor forms: the same named functor submitted three times to the queue e1, changed after the first
+    Submit, destroyed before anything runs: the three jobs run with 7, 9, 9 -/
+example : let s := frun cfgEx {} [.mk 0 7 .ret, .submitL (.user 1) 0, .change 0 9, .submitL (.user 1) 0, .submitL (.user 1) 0,
+                                  .kill 0, .call 1, .call 1, .call 1]
+    s.called = [7, 9, 9] ∧ s.fns = [] ∧ s.queue = [] ∧ s.news = 3 ∧ s.deletes = 3 := by
   decide +kernel
 
 end FreeJobs
@@ -392,6 +443,12 @@ theorem tie_MakeUniqueJob : Extracted.Kernels.MakeUniqueJob = Skeletons.MakeUniq
 theorem tie_UniqueJob_Call : Extracted.Kernels.UniqueJob_Call = Skeletons.UniqueJob_Call := rfl
 theorem tie_UniqueJob_Drop : Extracted.Kernels.UniqueJob_Drop = Skeletons.UniqueJob_Drop := rfl
 theorem tie_SafeCall_Call : Extracted.Kernels.SafeCall_Call = Skeletons.SafeCall_Call := rfl
+theorem tie_safe_call_hpp : Extracted.Kernels.FreeSrc_safe_call_hpp = Skeletons.FreeSrc_safe_call_hpp := rfl
+theorem tie_unique_job_hpp : Extracted.Kernels.FreeSrc_unique_job_hpp = Skeletons.FreeSrc_unique_job_hpp := rfl
+theorem tie_submit_hpp : Extracted.Kernels.FreeSrc_submit_hpp = Skeletons.FreeSrc_submit_hpp := rfl
+/-- the skeleton names what is caught: the handler is `catch(...)` with an empty body, the nothrow branch has no handler -/
+theorem SafeCall_catches_everything : Extracted.Kernels.SafeCall_Call =
+    "Call() { ifc (is_nothrow_invocable_v) { forward(_func)() } else { try { forward(_func)() } catch(...) {  } } }" := rfl
 
 /-- T1: the CoreType flag sets of the attachment API: exactly the *Inline ones lack the Call bit -/
 theorem api_flags :
